@@ -42,7 +42,13 @@ def build_case(b, name):
         sc = scripts[t] if isinstance(scripts, dict) else scripts[t - 1]
         threads.append(_ops(sc, piped_worker=(kind == "piped")))
     wl = [int(x) for x in _seq(b.get("wakers", []))]
-    return {"case": name, "kind": kind, "props": [], "wakers": wl, "threads": threads,
+    fillers = 0
+    if kind != "waker":
+        # WakerBits = (1 :> bit): `bit - 1` filler wakers come first (slot `base` is skipped by the runtime)
+        bit = int(b.get("chanbit", 1))
+        fillers = bit - 1 - (bit // 4096)
+        wl = []
+    return {"case": name, "kind": kind, "props": [], "wakers": wl, "threads": threads, "fillers": fillers,
             "main": _ops(b["main"]), "schedule": [int(x) for x in _seq(b["sched"])], "seed": 1, "fallback": "rr",
             "autodrop": False,
             "pred_lo": _seq(b["lo"]), "pred_hi": _seq(b["hi"])}
